@@ -40,10 +40,11 @@ LEVEL_NOTE = ('Trusted: Coq kernel, gen_tables.py, extraction + OCaml driver, th
               'keyed by user@host on one network-wide class attribute, so users sharing a user@host -- or the same user@host on two networks -- share them '
               '(F47, scenario only; the model has one owner and one peer with distinct user@host); a change of the bot\'s own visible host (CHGHOST, 396) '
               'is not followed by irc.prefix (F48; C12_prefix_tracks assumes user and host fixed); action replies and noLengthCheck=True are not split by design and not modelled; nested replies, '
-              'irc.replies(), outFilter callbacks of plugins, the +draft/reply tag (message-tags) and reply.mores.length below 4 + reserve + formatting '
-              'overhead (byteTextWrap then never returns: compared at unit level only) are outside the live model; the translated words are inputs '
+              'irc.replies(), outFilter callbacks of plugins, the +draft/reply tag (message-tags) and are outside the live model; the translated words are inputs '
               '(the four shipped locales are exercised through supybot.i18n\'s own .po parser, not through supybot.language, because a source tree '
-              'does not carry the core locales where i18n looks for them).')
+              'does not carry the core locales where i18n looks for them); for reply.mores.length below the reserve + 4 + formatting overhead only '
+              'termination and the 512-byte bound are checked: byteTextWrap then returns, but a chunk may be one character wider than asked '
+              'and an empty chunk may appear before or after a character wider than the width.')
 TECHNIQUE = 'Coq proof (induction over the wrap loop with a fuel/measure invariant) + regenerated tables + extracted-model differential correspondence incl. live bot'
 EXPLANATION = 'C12: model of byteTextWrap/wrap/reply/more; theorems in coq/C12/Props.v'
 
@@ -54,16 +55,26 @@ class Hang(Exception):
     pass
 
 
+_alarms = [0]
+
+
 def _alarm(signum, frame):
+    _alarms[0] += 1
     raise Hang()
 
 
-def guarded(f, secs):
-    """run f() under an interval timer; ('hang',) if it does not return in time"""
+def guarded(f, secs, repeat=False):
+    """run f() under an interval timer; ('raise', OtherError) if it does not return in time.  With repeat the
+    timer fires again and again: the bot swallows the exception and may hang again in its error reply; every
+    firing is counted, and the result is a failure if any happened"""
     old = signal.signal(signal.SIGALRM, _alarm)
-    signal.setitimer(signal.ITIMER_REAL, secs)
+    before = _alarms[0]
+    signal.setitimer(signal.ITIMER_REAL, secs, secs if repeat else 0)
     try:
-        return ('ok', f())
+        r = f()
+        if _alarms[0] != before:
+            return ('raise', OTHER)
+        return ('ok', r)
     except Hang:
         return ('raise', OTHER)
     except UnicodeError:
@@ -221,7 +232,7 @@ def unit_inputs(ctx):
             size = rng.choice([4, 5, 6, 8, 10, 13, 16, 20, 24, 32, 40, 64])
             if kind in ('fmt', 'color0', 'junction', 'hostile'):
                 size = rng.choice([16, 18, 20, 24, 27, 32, 40, 64])
-            if rng.random() < 0.03:
+            if rng.random() < 0.08:
                 size = rng.randint(-3, 3)
             cases.append((kind, gen_text(rng, kind, nwords, 2 * max(size, 4) + 3), size))
     return cases
@@ -233,14 +244,14 @@ def ctx_tuple(c):
 
 def unit_oracle(ctx, inp, text, size, impl_btw, impl_wrap, ircutils):
     """the property clauses that make sense below the reply level"""
-    if impl_btw[0] == 'ok' and size >= 4:
+    if impl_btw[0] == 'ok':
         chunks = impl_btw[1]
-        if any(len(c.encode()) > size for c in chunks):
+        if size >= 4 and any(len(c.encode()) > size for c in chunks):
             ctx.fail(inp, 'byteTextWrap chunk over %d bytes: %r' % (size, [len(c.encode()) for c in chunks]))
-        if ''.join(chunks) != munge(text):
+        if ''.join(chunks) != munge(text):       # for every width, also below one character
             ctx.fail(inp, 'byteTextWrap lost/invented text: %r' % chunks)
-    elif size >= 4 and impl_btw != ('raise', 'UnicodeError'):
-        ctx.fail(inp, 'byteTextWrap did not return: %r' % (impl_btw,))
+    elif impl_btw != ('raise', 'UnicodeError'):
+        ctx.fail(inp, 'byteTextWrap(text, %d) did not return: %r' % (size, impl_btw))
     if impl_wrap[0] == 'ok':
         chunks = impl_wrap[1]
         over = [len(c.encode()) for c in chunks if len(c.encode()) > size]
@@ -249,8 +260,8 @@ def unit_oracle(ctx, inp, text, size, impl_btw, impl_wrap, ircutils):
         vis = ''.join(ircutils.stripFormatting(c) for c in chunks)      # each chunk is a message of its own
         if vis != ircutils.stripFormatting(munge(text)) and size >= 16:
             ctx.fail(inp, 'wrap changed the visible text: %r vs %r' % (vis, ircutils.stripFormatting(munge(text))))
-    elif impl_wrap[1] not in (OTHER, 'UnicodeError') or size >= 16 and impl_wrap[1] == OTHER:
-        ctx.fail(inp, 'wrap(s, %d) raised %s' % (size, impl_wrap[1]))
+    elif impl_wrap[1] != 'UnicodeError':
+        ctx.fail(inp, 'wrap(s, %d) did not return: %s' % (size, impl_wrap[1]))
 
 
 def run_unit(ctx, cases, ircutils, utils):
@@ -296,12 +307,16 @@ def run_unit(ctx, cases, ircutils, utils):
         mb = wire.r(m2[idx], wire.ls)
         mw = wire.r(m3[idx], wire.ls)
         predicted_hang = mb == ('raise', OTHER) or mw == ('raise', OTHER)
-        if predicted_hang and hangs >= 8:
+        if hangs >= 6 and size < 16:
+            # the implementation already failed to return several times on narrow widths: enough witnesses
             ctx.dist['unit-hang-skipped'] += 1
             continue
-        tmo = 0.15 if predicted_hang else 10
-        hangs += predicted_hang
+        if predicted_hang and hangs >= 40:
+            ctx.dist['unit-hang-skipped'] += 1
+            continue
+        tmo = 0.15 if predicted_hang else (0.4 if size < 16 else 3)
         ib = guarded(lambda: utils.str.byteTextWrap(text, size), tmo)
+        hangs += ib == ('raise', OTHER)
         if ib != mb:
             ctx.disagree(inp, mb, ib, 'byteTextWrap')
         # FormatParser
@@ -428,6 +443,7 @@ def live_run(inp, max_rounds=400):
     A = the owner's `more`, N = another user's `more <owner's nick>`, B = that user's `more`) the rounds are
     [first] + one per op + the owner's `more` until exhaustion, and inp['_ops'] is set to the ops really run"""
     b = bot()
+    alarms0 = _alarms[0]
     irc, conf, ircmsgs = b['irc'], b['conf'], b['ircmsgs']
     b['n'] += 1
     import supybot.callbacks as callbacks
@@ -475,6 +491,8 @@ def live_run(inp, max_rounds=400):
     rounds = []
     irc.feedMsg(ircmsgs.privmsg(to, '@emit', prefix=frm))
     rounds.append(drain(irc))
+    if _alarms[0] != alarms0:
+        raise Hang()
     peer = 'zed!p%d@peer.example' % b['n']
     ops = list(inp.get('ops', ''))
     errors = (NO_MORE, NO_CMD, "Sorry, I can't find any mores", 'has no public mores')
@@ -486,10 +504,14 @@ def live_run(inp, max_rounds=400):
         else:
             irc.feedMsg(ircmsgs.privmsg(to, '@more', prefix=peer))
         out = drain(irc)
+        if _alarms[0] != alarms0:
+            raise Hang()        # the watchdog fired inside the bot (and was swallowed there): give up
         rounds.append([] if len(out) == 1 and any(e in out[0] for e in errors) else out)
     for _ in range(max_rounds):
         irc.feedMsg(ircmsgs.privmsg(to, '@more', prefix=frm))
         out = drain(irc)
+        if _alarms[0] != alarms0:
+            raise Hang()        # the watchdog fired inside the bot (and was swallowed there): give up
         ops.append('A')
         if len(out) == 1 and (NO_MORE in out[0] or NO_CMD in out[0]):
             rounds.append([])
@@ -544,6 +566,8 @@ def live_oracle(ctx, inp, public, rounds, ircutils):
     over = [len((head + m).encode()) for m in msgs if len((head + m).encode()) > 512]
     if over:
         ctx.fail(inp, 'relayed line of %r bytes (> 512)' % over)
+    if 0 < inp['length'] < more_reserve() + 4 + 16:
+        return      # a chunk length below reserve + 4 + formatting overhead: only that the bot answers within 512 bytes
     target, pref, _cmd = reply_env(inp)
     texts = []
     for i, m in enumerate(msgs):
@@ -645,6 +669,11 @@ def gen_live(rng, kind):
     if kind == 'keywords':
         tk = rng.choice(['plain', 'plain', 'mb'])
         nchunks = rng.choice([2, 3, 4])
+    if kind == 'tiny':
+        # an owner set supybot.reply.mores.length to something smaller than the suffix reserve, or than a character
+        inp.update(mores=True, length=rng.choice([1, 2, 5, 10, 20, 21, 22, 23, 24, 25, 26, 30, 40]), instant=1, number=rng.choice([1, 1, 5]))
+        tk = rng.choice(['plain', 'mb', 'fmt'])
+        nchunks = 1
     if kind == 'unsafe':
         # texts that are not valid IRC arguments (NUL, CR, LF): reply() sends repr() of them, which is longer
         inp.update(mores=True, length=0)
@@ -671,7 +700,7 @@ def gen_live(rng, kind):
         inp['ops'] = ''.join(rng.choice('AANNB') for _ in range(rng.choice([2, 3, 5, 8])))
         tk = rng.choice(['plain', 'mb', 'fmt'])
         nchunks = rng.choice([3, 4, 6, 9])
-    target_bytes = int(allowed * nchunks * rng.uniform(0.5, 1.0))
+    target_bytes = int(allowed * nchunks * rng.uniform(0.5, 1.0)) if kind != 'tiny' else rng.choice([30, 60, 120])
     maxword = rng.choice([12, 12, 12, 40, allowed + 50, 3 * allowed])
     if tk == 'junction' or kind in ('rename', 'locale'):
         maxword = rng.choice([allowed + 50, 2 * allowed])
@@ -696,6 +725,8 @@ def gen_live(rng, kind):
 SCENARIOS = [{'op': 'scenario', 'scenario': 'long_error', 's': 'EEEEEEEEEEEEEEEEEEEEEEEEEEEEEEEEEEEEEEEEEEEEEEEEEEEEEEEEEEEEEEEEEEEEEEEEEEEEEEEEEEEEEEEEEEEEEEEEEEEEEEEEEEEEEEEEEEEEEEEEEEEEEEEEEEEEEEEEEEEEEEEEEEEEEEEEEEEEEEEEEEEEEEEEEEEEEEEEEEEEEEEEEEEEEEEEEEEEEEEEEEEEEEEEEEEEEEEEEEEEEEEEEEEEEEEEEEEEEEEEEEEEEEEEEEEEEEEEEEEEEEEEEEEEEEEEEEEEEEEEEEEEEEEEEEEEEEEEEEEEEEEEEEEEEEEEEEEEEEEEEEEEEEEEEEEEEEEEEEEEEEEEEEEEEEEEEEEEEEEEEEEEEEEEEEEEEEEEEEEEEEEEEEEEEEEEEEEEEEEEEEEEEEEEEEEEEEEEEEEEEEEEEEEEEEEEEEEEEEEEEEEEEEEEEEEEEEEEEEEEEEEEEEEEEEEEEEEEEEEEEEEEEEEEEEEEEEEEEEEEEEEEEEEEEEEEEEEEEEEEEEEEEEEEEEEEEEEEEEEEEEEEEEEEEEEEEEEEEEEEEEEEEEEEEEEEEEEEEEEEEEEEEEEEEEEEEEEEEEEEEEEEEEEEEEEEEEEEEEEEEEEEEEEEEEEEEEEEEEEEEEEEEEEEEEEEEEEEEEEEEEEEEEEEEEEEEEEEEEEEEEEEEEEEEEEEEEEEEEEEEEEEEEEEEEEEEEEEEEEEEEEEEEEEEEEEEEEEEEEEEEEEEEEEEEEEEEEEEEEEEEEEEEEEEEEEEEEEEEEEEEEEEEEEEEEEEEEEEEEEEEEEEEEEEEEEEEEEEEEEEEEEEEEEEEEEEEEEEEEEEEEEEEEEEEEEEEEEEEEEEEEEEEEEEEEEEEEEEEEEEEEEEEEEEEEEEEEEEEEE'}, {'op': 'scenario', 'scenario': 'shared_userhost', 's': 'AAAAAAAAAAAAAAAAAAAAAAAAAAAAAAAAAAAAAAAAAAAAAAAAAAAAAAAAAAAAAAAAAAAAAAAAAAAAAAAAAAAAAAAAAAAAAAAAAAAAAAAAAAAAAAAAAAAAAAAAAAAAAAAAAAAAAAAAAAAAAAAAAAAAAAAAAAAAAAAAAAAAAAAAAAAAAAAAAAAAAAAAAAAAAAAAAAAAAAAAAAAAAAAAAAAAAAAAAAAAAAAAAAAAAAAAAAAAAAAAAAAAAAAAAAAAAAAAAAAAAAAAAAAAAAAAAAAAAAAAAAAAAAAAAAAAAAAAAAAAAAAAAAAAAAAAAAAAAAAAAAAAAAAAAAAAAAAAAAAAAAAAAAAAAAAAAAAAAAAAAAAAAAAAAAAAAAAAAAAAAAAAAAAAAAAAAAAAAAAAAAAAAAAAAAAAAAAAAAAAAAAAAAAAAAAAAAAAAAAAAAAAAAAAAAAAAAAAAAAAAAAAAAAAAAAAAAAAAAAAAAAAAAAAAAAAAAAAAAAAAAAAAAAAAAAAAAAAAAAAAAAAAAAAAAAAAAAAAAAAAAAAAAAAAAAAAAAAAAAAAAAAAAAAAAAAAAAAAAAAAAAAAAAAAAAAAAAAAAAAAAAAAAAAAAAAAAAAAAAAAAAAAAAAAAAAAAAAAAAAAAAAAAAAAAAAAAAAAAAAAAAAAAAAAAAAAAAAAAAAAAAAAAAAAAAAAAAAAAAAAAAAAAAAAAAAAAAAAAAAAAAAAAAAAAAAAAAAAAAAAAAAAAAAAAAAAAAAAAAAAAAAAAAAAAAAAAAAAAAAAAAAAAAAAAAAAAAAAAAAAAAAAAAAAAAAAAAAAAAAAAAAAAAAAAAAAAAAAAAAAAAAAAAAAAAAAAAAAAAAAAAAAAAAAAAAAAAAAAAAAAAAAAAAAAAAAAAAAAAAAAAAAAAAAAAAAAAAAAAAAAAAAAAAAAAAAAAAAAAAAAAAAAAAAAAAAAAAAAAAAAAAAAAAAAAAAAAAAAAAAAAAAAAAAAAAAAAAAAAAAAAAAAAAAAAAAAAAAAAAAAAAAAAAAAAAAAAAAAAAAAAAAAAAAAAAAAAAAAAAAAAAAAAAAAAAAAAAAAAAAAAAAAAAAAAAAAAAAAAAAAAAAAAAAAAAAAAAAAAAAAAAAAAAAAAAAAAAAAAAAAAAAAAAAAAAAAAAAAAAAAAAAAAAAAAAAAAAAAAAAAAAAAAAAAAAAAAAAAAA', 'other': 'BBBBBBBBBBBBBBBBBBBBBBBBBBBBBBBBBBBBBBBBBBBBBBBBBBBBBBBBBBBBBBBBBBBBBBBBBBBBBBBBBBBBBBBBBBBBBBBBBBBBBBBBBBBBBBBBBBBBBBBBBBBBBBBBBBBBBBBBBBBBBBBBBBBBBBBBBBBBBBBBBBBBBBBBBBBBBBBBBBBBBBBBBBBBBBBBBBBBBBBBBBBBBBBBBBBBBBBBBBBBBBBBBBBBBBBBBBBBBBBBBBBBBBBBBBBBBBBBBBBBBBBBBBBBBBBBBBBBBBBBBBBBBBBBBBBBBBBBBBBBBBBBBBBBBBBBBBBBBBBBBBBBBBBBBBBBBBBBBBBBBBBBBBBBBBBBBBBBBBBBBBBBBBBBBBBBBBBBBBBBBBBBBBBBBBBBBBBBBBBBBBBBBBBBBBBBBBBBBBBBBBBBBBBBBBBBBBBBBBBBBBBBBBBBBBBBBBBBBBBBBBBBBBBBBBBBBBBBBBBBBBBBBBBBBBBBBBBBBBBBBBBBBBBBBBBBBBBBBBBBBBBBBBBBBBBBBBBBBBBBBBBBBBBBBBBBBBBBBBBBBBBBBBBBBBBBBBBBBBBBBBBBBBBBBBBBBBBBBBBBBBBBBBBBBBBBBBBBBBBBBBBBBBBBBBBBBBBBBBBBBBBBBBBBBBBBBBBBBBBBBBBBBBBBBBBBBBBBBBBBBBBBBBBBBBBBBBBBBBBBBBBBBBBBBBBBBBBBBBBBBBBBBBBBBBBBBBBBBBBBBBBBBBBBBBBBBBBBBBBBBBBBBBBBBBBBBBBBBBBBBBBBBBBBBBBBBBBBBBBBBBBBBBBBBBBBBBBBBBBBBBBBBBBBBBBBBBBBBBBBBBBBBBBBBBBBBBBBBBBBBBBBBBBBBBBBBBBBBBBBBBBBBBBBBBBBBBBBBBBBBBBBBBBBBBBBBBBBBBBBBBBBBBBBBBBBBBBBBBBBBBBBBBBBBBBBBBBBBBBBBBBBBBBBBBBBBBBBBBBBBBBBBBBBBBBBBBBBBBBBBBBBBBBBBBBBBBBBBBBBBBBBBBBBBBBBBBBBBBBBBBBBBBBBBBBBBBBBBBBBBBBBBBBBBBBBBBBBBBBBBBBBBBBBBBBBBBBBBBBBBBBBBBBBBBBBBBBBBBBBBBBBBBBBBBBBBBBBBBBBBBBBBBBBBBBBBBBBBBBBBBBBBBBBBBBBBBBBBBBBBBBBBBBBBBBBBBBBBBBB'}, {'op': 'scenario', 'scenario': 'chghost', 'how': 'chghost', 'host': 'a.very.long.cloak.example.org/bot/limnoria', 's': 'yyyyyyyyyyyyyyyyyyyyyyyyyyyyyyyyyyyyyyyyyyyyyyyyyyyyyyyyyyyyyyyyyyyyyyyyyyyyyyyyyyyyyyyyyyyyyyyyyyyyyyyyyyyyyyyyyyyyyyyyyyyyyyyyyyyyyyyyyyyyyyyyyyyyyyyyyyyyyyyyyyyyyyyyyyyyyyyyyyyyyyyyyyyyyyyyyyyyyyyyyyyyyyyyyyyyyyyyyyyyyyyyyyyyyyyyyyyyyyyyyyyyyyyyyyyyyyyyyyyyyyyyyyyyyyyyyyyyyyyyyyyyyyyyyyyyyyyyyyyyyyyyyyyyyyyyyyyyyyyyyyyyyyyyyyyyyyyyyyyyyyyyyyyyyyyyyyyyyyyyyyyyyyyyyyyyyyyyyyyyyyyyyyyyyyyyyyyyyyyyyyyyyyyyyyyyyyyyyyyyyyyyyyyyyyyyyyyyyyyyyyyyyyyyyyyyyyyyyyyyyyyyyyyyyyyyyyyyyyyyyyyyyyyyyyyyyyyyyyyyyyyyyyyyyyyyyyyyyyyyyyyyyyyyyyyyyyyyyyyyyyyyyyyyyyyyyyyyyyyyyyyyyyyyyyyyyyyyyyyyyyyyyyyyyyyyyyyyyyyyyyyyyyyyyyyyyyyyyyyyyyyyyyyyyyyyyyyyyyyyyyyyyyyyyyyyyyyyyyyyyyyyyyyyyyyyyyyyyyyyyyyyyyyyyyyyyyyyyyyyyyyyyyyyyyyyyyyyyyyyyyyyyyyyyyyyyyyyyyyyyyyyyyyyyyyyyyyyyyyyyyyyyyyyyyyyyyyyyyyyyyyyyyyyyyyyyyyyyyyyyyyyyyyyyyyyyyyyyyyyyyyyyyyyyyyyyyyyyyyyyyyyyyyyyyyyyyyyyyyyyyyyyyyyyyyyyyyyyyyyyyyyyyyyyyyyyyyyyyyyyyyyyyyyyyyyyyyyyyyyyyyyyyyyyyyyyyyyyyyyyyyyyyyyyyyyyyyyyyyyyyyyyyyyyyyyyyyyyyyyyyyyyyyyyyyyyyyyyyyyyyyyyyyyyyyyyyyyyyyyyyyyyyyyyyyyyyyyyyyyyyyyyyyyyyyyyyyyyyyyyyyyyyyyyyyyyyyyyyyyyyyyyyyyyyyyyyyyyyyyyyyyyyyyyyyyyyyyyyyyyyyyyyyyyyyyyyyyyyyyyyyyyyyyyyyyyyyyyyyyyyyyyyyyyyyyyyyyyyyyyyyyyyyyyyyyyyyyyyyy'}, {'op': 'scenario', 'scenario': 'chghost', 'how': '396', 'host': 'a.very.long.cloak.example.org/bot/limnoria', 's': 'yyyyyyyyyyyyyyyyyyyyyyyyyyyyyyyyyyyyyyyyyyyyyyyyyyyyyyyyyyyyyyyyyyyyyyyyyyyyyyyyyyyyyyyyyyyyyyyyyyyyyyyyyyyyyyyyyyyyyyyyyyyyyyyyyyyyyyyyyyyyyyyyyyyyyyyyyyyyyyyyyyyyyyyyyyyyyyyyyyyyyyyyyyyyyyyyyyyyyyyyyyyyyyyyyyyyyyyyyyyyyyyyyyyyyyyyyyyyyyyyyyyyyyyyyyyyyyyyyyyyyyyyyyyyyyyyyyyyyyyyyyyyyyyyyyyyyyyyyyyyyyyyyyyyyyyyyyyyyyyyyyyyyyyyyyyyyyyyyyyyyyyyyyyyyyyyyyyyyyyyyyyyyyyyyyyyyyyyyyyyyyyyyyyyyyyyyyyyyyyyyyyyyyyyyyyyyyyyyyyyyyyyyyyyyyyyyyyyyyyyyyyyyyyyyyyyyyyyyyyyyyyyyyyyyyyyyyyyyyyyyyyyyyyyyyyyyyyyyyyyyyyyyyyyyyyyyyyyyyyyyyyyyyyyyyyyyyyyyyyyyyyyyyyyyyyyyyyyyyyyyyyyyyyyyyyyyyyyyyyyyyyyyyyyyyyyyyyyyyyyyyyyyyyyyyyyyyyyyyyyyyyyyyyyyyyyyyyyyyyyyyyyyyyyyyyyyyyyyyyyyyyyyyyyyyyyyyyyyyyyyyyyyyyyyyyyyyyyyyyyyyyyyyyyyyyyyyyyyyyyyyyyyyyyyyyyyyyyyyyyyyyyyyyyyyyyyyyyyyyyyyyyyyyyyyyyyyyyyyyyyyyyyyyyyyyyyyyyyyyyyyyyyyyyyyyyyyyyyyyyyyyyyyyyyyyyyyyyyyyyyyyyyyyyyyyyyyyyyyyyyyyyyyyyyyyyyyyyyyyyyyyyyyyyyyyyyyyyyyyyyyyyyyyyyyyyyyyyyyyyyyyyyyyyyyyyyyyyyyyyyyyyyyyyyyyyyyyyyyyyyyyyyyyyyyyyyyyyyyyyyyyyyyyyyyyyyyyyyyyyyyyyyyyyyyyyyyyyyyyyyyyyyyyyyyyyyyyyyyyyyyyyyyyyyyyyyyyyyyyyyyyyyyyyyyyyyyyyyyyyyyyyyyyyyyyyyyyyyyyyyyyyyyyyyyyyyyyyyyyyyyyyyyyyyyyyyyyyyyyyyyyyyyyyyyyyyyyyyyyyyyyyyyyyyyyyyyyyyyyyyyyyyyyyyyyyyyyyyyyy'}]
 
 LIVE_CORPUS = [
+    {'op': 'live', 'kind': 'corpus', 'botprefix': 'test!user@host.example', 'nick': 'alice', 'chan': '#chan', 'private': False, 'prefixNick': True, 'noticePriv': True, 'mores': True, 'length': 10, 'maximum': 50, 'instant': 1, 'number': 1, 's': 'hello world hello world hello world hello world hello world '},   # old witnesses of C12.F49 (repaired): mores.length below the reserve / below a character used to hang the bot
+    {'op': 'live', 'kind': 'corpus', 'botprefix': 'test!user@host.example', 'nick': 'alice', 'chan': '#chan', 'private': False, 'prefixNick': True, 'noticePriv': True, 'mores': True, 'length': 24, 'maximum': 50, 'instant': 1, 'number': 1, 's': '😀😀😀 😀😀😀 😀😀😀 😀😀😀 😀😀😀 😀😀😀 😀😀😀 😀😀😀 😀😀😀 '},
     {'op': 'live', 'kind': 'corpus', 'botprefix': 'test!user@host.example', 'nick': 'alice', 'chan': '#chan', 'private': False, 'prefixNick': True, 'noticePriv': True, 'mores': True, 'length': 0, 'maximum': 50, 'instant': 1, 'number': 1, 's': 'lorem\x00\x02ipsum dolor sit amet lorem\x00\x02ipsum dolor sit amet lorem\x00\x02ipsum dolor sit amet lorem\x00\x02ipsum dolor sit amet lorem\x00\x02ipsum dolor sit amet lorem\x00\x02ipsum dolor sit amet lorem\x00\x02ipsum dolor sit amet lorem\x00\x02ipsum dolor sit amet lorem\x00\x02ipsum dolor sit amet lorem\x00\x02ipsum dolor sit amet lorem\x00\x02ipsum dolor sit amet lorem\x00\x02ipsum dolor sit amet lorem\x00\x02ipsum dolor sit amet lorem\x00\x02ipsum dolor sit amet lorem\x00\x02ipsum dolor sit amet lorem\x00\x02ipsum dolor sit amet lorem\x00\x02ipsum dolor sit amet lorem\x00\x02ipsum dolor sit amet lorem\x00\x02ipsum dolor sit amet lorem\x00\x02ipsum dolor sit amet lorem\x00\x02ipsum dolor sit amet lorem\x00\x02ipsum dolor sit amet lorem\x00\x02ipsum dolor sit amet lorem\x00\x02ipsum dolor sit amet lorem\x00\x02ipsum dolor sit amet lorem\x00\x02ipsum dolor sit amet lorem\x00\x02ipsum dolor sit amet lorem\x00\x02ipsum dolor sit amet lorem\x00\x02ipsum dolor sit amet lorem\x00\x02ipsum dolor sit amet lorem\x00\x02ipsum dolor sit amet lorem\x00\x02ipsum dolor sit amet lorem\x00\x02ipsum dolor sit amet lorem\x00\x02ipsum dolor sit amet lorem\x00\x02ipsum dolor sit amet lorem\x00\x02ipsum dolor sit amet lorem\x00\x02ipsum dolor sit amet lorem\x00\x02ipsum dolor sit amet lorem\x00\x02ipsum dolor sit amet lorem\x00\x02ipsum dolor sit amet lorem\x00\x02ipsum dolor sit amet lorem\x00\x02ipsum dolor sit amet lorem\x00\x02ipsum dolor sit amet lorem\x00\x02ipsum dolor sit amet lorem\x00\x02ipsum dolor sit amet lorem\x00\x02ipsum dolor sit amet lorem\x00\x02ipsum dolor sit amet lorem\x00\x02ipsum dolor sit amet lorem\x00\x02ipsum dolor sit amet lorem\x00\x02ipsum dolor sit amet lorem\x00\x02ipsum dolor sit amet lorem\x00\x02ipsum dolor sit amet lorem\x00\x02ipsum dolor sit amet lorem\x00\x02ipsum dolor sit amet lorem\x00\x02ipsum dolor sit amet lorem\x00\x02ipsum dolor sit amet lorem\x00\x02ipsum dolor sit amet lorem\x00\x02ipsum dolor sit amet lorem\x00\x02ipsum dolor sit amet lorem\x00\x02ipsum dolor sit amet'},   # not a valid IRC argument (NUL): repr() must be taken BEFORE measuring and wrapping
     {'op': 'live', 'kind': 'corpus', 'botprefix': 'test!user@host.example', 'nick': 'alice', 'chan': '#chan', 'private': False, 'prefixNick': True, 'noticePriv': True, 'mores': True, 'length': 0, 'maximum': 50, 'instant': 1, 'number': 1, 's': 'yyyyyyyyyyyyyyyyyyyyyyyyyyyyyyyyyyyyyyyyyyyyyyyyyyyyyyyyyyyyyyyyyyyyyyyyyyyyyyyyyyyyyyyyyyyyyyyyyyyyyyyyyyyyyyyyyyyyyyyyyyyyyyyyyyyyyyyyyyyyyyyyyyyyyyyyyyyyyyyyyyyyyyyyyyyyyyyyyyyyyyyyyyyyyyyyyyyyyyyyyyyyyyyyyyyyyyyyyyyyyyyyyyyyyyyyyyyyyyyyyyyyyyyyyyyyyyyyyyyyyyyyyyyyyyyyyyyyyyyyyyyyyyyyyyyyyyyyyyyyyyyyyyyyyyyyyyyyyyyyyyyyyyyyyyyyyyyyyyyyyyyyyyyyyyyyyyyyyyyyyyyyyyyyyyyyyyyyyyyyyyyyyyyyyyyyyyyyyyyyyyyyyyyyyyyyyyyyyyyyyyyyyyyyyy\x00\x00\x00\x00\x00\x00\x00\x00'},
     {'op': 'live', 'kind': 'corpus', 'botprefix': 'test!user@host.example', 'nick': 'alice', 'chan': '#chan', 'private': False, 'prefixNick': True, 'noticePriv': True, 'mores': True, 'length': 0, 'maximum': 50, 'instant': 1, 'number': 1, 's': 'a\nb\rc a\nb\rc a\nb\rc a\nb\rc a\nb\rc a\nb\rc a\nb\rc a\nb\rc a\nb\rc a\nb\rc a\nb\rc a\nb\rc a\nb\rc a\nb\rc a\nb\rc a\nb\rc a\nb\rc a\nb\rc a\nb\rc a\nb\rc a\nb\rc a\nb\rc a\nb\rc a\nb\rc a\nb\rc a\nb\rc a\nb\rc a\nb\rc a\nb\rc a\nb\rc a\nb\rc a\nb\rc a\nb\rc a\nb\rc a\nb\rc a\nb\rc a\nb\rc a\nb\rc a\nb\rc a\nb\rc a\nb\rc a\nb\rc a\nb\rc a\nb\rc a\nb\rc a\nb\rc a\nb\rc a\nb\rc a\nb\rc a\nb\rc a\nb\rc a\nb\rc a\nb\rc a\nb\rc a\nb\rc a\nb\rc a\nb\rc a\nb\rc a\nb\rc a\nb\rc a\nb\rc a\nb\rc a\nb\rc a\nb\rc a\nb\rc a\nb\rc a\nb\rc a\nb\rc a\nb\rc a\nb\rc a\nb\rc a\nb\rc a\nb\rc a\nb\rc a\nb\rc a\nb\rc a\nb\rc a\nb\rc a\nb\rc a\nb\rc a\nb\rc a\nb\rc a\nb\rc a\nb\rc a\nb\rc a\nb\rc a\nb\rc a\nb\rc a\nb\rc a\nb\rc a\nb\rc a\nb\rc a\nb\rc a\nb\rc a\nb\rc a\nb\rc a\nb\rc a\nb\rc a\nb\rc a\nb\rc a\nb\rc a\nb\rc a\nb\rc a\nb\rc a\nb\rc a\nb\rc a\nb\rc a\nb\rc a\nb\rc a\nb\rc a\nb\rc a\nb\rc a\nb\rc a\nb\rc a\nb\rc a\nb\rc a\nb\rc a\nb\rc a\nb\rc a\nb\rc a\nb\rc a\nb\rc a\nb\rc a\nb\rc a\nb\rc a\nb\rc a\nb\rc a\nb\rc a\nb\rc a\nb\rc a\nb\rc a\nb\rc a\nb\rc a\nb\rc a\nb\rc a\nb\rc a\nb\rc a\nb\rc a\nb\rc a\nb\rc a\nb\rc a\nb\rc a\nb\rc a\nb\rc a\nb\rc a\nb\rc a\nb\rc a\nb\rc a\nb\rc a\nb\rc a\nb\rc a\nb\rc a\nb\rc a\nb\rc a\nb\rc a\nb\rc a\nb\rc a\nb\rc a\nb\rc a\nb\rc a\nb\rc a\nb\rc a\nb\rc a\nb\rc a\nb\rc a\nb\rc a\nb\rc a\nb\rc a\nb\rc a\nb\rc a\nb\rc a\nb\rc a\nb\rc a\nb\rc a\nb\rc a\nb\rc a\nb\rc a\nb\rc a\nb\rc a\nb\rc a\nb\rc a\nb\rc a\nb\rc a\nb\rc a\nb\rc a\nb\rc a\nb\rc a\nb\rc a\nb\rc a\nb\rc a\nb\rc a\nb\rc a\nb\rc a\nb\rc a\nb\rc a\nb\rc a\nb\rc a\nb\rc a\nb\rc a\nb\rc '},
@@ -721,7 +752,15 @@ LIVE_CORPUS = [
 
 def check_live(ctx, inp, ircutils, kind=None):
     ctx.case('live-' + (kind or inp.get('kind', 'x')), inp, nontrivial=bool(inp['s']))
-    public, rounds = live_run(inp)
+    if _live_hangs[0] >= 3 and 0 < inp['length'] < 60:
+        ctx.dist['live-hang-skipped'] += 1      # the bot already hung three times on tiny chunk lengths: enough witnesses
+        return
+    g = live_guarded(inp)
+    if g[0] != 'ok':
+        _live_hangs[0] += 1
+        ctx.fail(inp, 'the bot did not answer: reply() was still running after %d s (%r)' % (WATCHDOG, g[1]))
+        return
+    public, rounds = g[1]
     times = len(rounds) - 1
     mo = ctx.model([live_wire(inp, public, times)])[0]
     if mo is not None:
@@ -815,6 +854,20 @@ def scenario(inp):
     return None
 
 
+WATCHDOG = 4
+_live_hangs = [0]
+
+
+def live_guarded(inp):
+    """live_run under a repeating watchdog: a reply() that never returns is interrupted (again and again: the
+    bot's own error reply may hang too), so the check itself cannot hang"""
+    g = guarded(lambda: live_run(inp, max_rounds=(700 if 0 < inp['length'] < 60 else 400)), WATCHDOG, repeat=True)
+    if g[0] != 'ok':
+        irc = bot()['irc']
+        guarded(lambda: drain(irc), WATCHDOG, repeat=True)
+    return g
+
+
 def owner_rounds(inp, rounds):
     """the rounds of the reply's owner: the first answer and the outputs of her own `more` commands"""
     if 'ops' not in inp:
@@ -837,7 +890,7 @@ def run(ctx):
     run_unit(ctx, unit_inputs(ctx), ircutils, utils)
     rng = ctx.rng
     plan = (('plain', 120), ('mb', 100), ('ws', 60), ('fmt', 120), ('color0', 40), ('junction', 60), ('hostile', 80), ('many', 20),
-            ('nonascii', 15), ('privnick', 15), ('keywords', 150), ('nickmore', 80), ('rename', 60), ('locale', 40), ('unsafe', 80))
+            ('nonascii', 15), ('privnick', 15), ('keywords', 150), ('nickmore', 80), ('rename', 60), ('locale', 40), ('unsafe', 80), ('tiny', 40))
     for kind, base in plan:
         for _ in range(ctx.n(base)):
             check_live(ctx, gen_live(rng, kind), ircutils)
@@ -855,7 +908,10 @@ def replay(ctx, inp):
         unit_oracle(sub, inp, text, size, ib, iw, ircutils)
     else:
         inp = dict(inp)
-        public, rounds = live_run(inp)
+        g = live_guarded(inp)
+        if g[0] != 'ok':
+            return 'the bot did not answer: reply() was still running after %d s (%r)' % (WATCHDOG, g[1])
+        public, rounds = g[1]
         if inp.get('rename') and inp['_ident'] != [inp['botprefix'].split('!')[0], inp['botprefix']]:
             sub.fail(inp, 'irc.nick / irc.prefix are %r but the server knows the bot as %r' % (inp['_ident'], inp['botprefix']))
         live_oracle(sub, inp, public, owner_rounds(inp, rounds), ircutils)
